@@ -359,6 +359,7 @@ func (e *Engine) runPath(i *interpreter, solver *Solver, prefix []Decision) {
 	i.ps = ps
 	i.resetPerPath()
 	i.callDepth = 0
+	i.panicStack = nil
 	outcome := "ok"
 	var detail string
 	func() {
@@ -394,7 +395,7 @@ func (e *Engine) runPath(i *interpreter, solver *Solver, prefix []Decision) {
 		m, r := ps.model(tTrue)
 		if r == Sat {
 			ex.mu.Lock()
-			ex.Violations = append(ex.Violations, Violation{Label: "panic", Panic: detail, Model: m, Decisions: decString(ps.decisions), Inputs: ps.inputDecls()})
+			ex.Violations = append(ex.Violations, Violation{Label: "panic", Panic: detail, Model: m, Decisions: decString(ps.decisions), Inputs: ps.inputDecls(), Stack: i.panicStack})
 			if len(ex.Violations) >= ex.MaxViol {
 				ex.stop = true
 				ex.cond.Broadcast()
